@@ -39,14 +39,12 @@ def waysOf (g : List Nat) : Rat :=
 /-- allele frequency p of the partition, as `part_inbreeding_probability` computes it -/
 def pOf (g : List Nat) : Rat := inbP (cntZ g) (g.length : Nat)
 
-/-- F ≠ 0: one un-normalised entry of `part_inbreeding_probability` -/
+/-- F ≠ 0: one un-normalised entry of `part_inbreeding_probability` (guard, p, the three single-individual
+    genotype probabilities and the multinomial weight are the generated expressions) -/
 def inbWeightOf (g : List Nat) (F : Rat) : Rat :=
   if inbGuard ((g.sum : Nat) : Int) ((g.length : Nat) : Int) then
-    let p := pOf g
-    let a := inbAlpha p F
-    let b := inbBeta p F
     Gen.LowPass.inbWeight factZ (g.length : Nat) (cntZ g 0) (cntZ g 1) (cntZ g 2)
-      (betaBinom 0 2 a b) (betaBinom 1 2 a b) (betaBinom 2 2 a b)
+      (inbP00 (pOf g) F) (inbP01 (pOf g) F) (inbP11 (pOf g) F)
   else inbElse
 
 /-- the `if Fx == 0` dispatch of `partitions_and_probabilities` -/
@@ -222,5 +220,20 @@ def mkAxis (c : List Rat) (nseq nsub : Nat) (F peAll : Rat) : Axis :=
   let K := mkTable (nseq + 1) (nsub + 1) (kernel peAll (tableAt P) (tableAt H) nsub)
   let q := mkVec (nseq + 1) (nocall c nseq F)
   { nIn := nseq + 1, nOut := nsub + 1, K := tableAt K, pnc := vecAt q }
+
+/-- one population of `make_low_pass_func_GATK_multisample`: coverage distribution, sequenced and subsampled
+    haplotype numbers, inbreeding coefficient -/
+structure Pop where
+  c : List Rat
+  nseq : Nat
+  nsub : Nat
+  F : Rat
+
+/-- `prob_enough_covered = numpy.prod([probability_enough_individuals_covered(…) for each population])` -/
+def peAll (pops : List Pop) : Rat := pops.foldl (fun acc p => acc * probEnough p.c p.nseq p.nsub) 1
+
+/-- everything `low_cov_precalc_GATK_multisample_GATK_multisample` prepares for the analytic part -/
+def axesOf (pops : List Pop) : List Axis :=
+  pops.map fun p => mkAxis p.c p.nseq p.nsub p.F (peAll pops)
 
 end DadiVerif.LowPass
